@@ -8,6 +8,7 @@ import (
 	"math"
 	"math/big"
 	"reflect"
+	"time"
 	"unsafe"
 
 	"pipelined.dev/signal"
@@ -380,6 +381,8 @@ type TypeOps struct {
 	GrowCap func(l, c, n int) int
 	// Probes builds the steady-state operations of this type for C18.
 	Probes func(ch, length int) []Probe
+	// IdleCycle measures one pool get/put cycle that starts after a pause (C18).
+	IdleCycle func(pause time.Duration, reps int) uint64
 	// ZeroValue is new(signal.Buffer[T]): a buffer that no allocator made.
 	ZeroValue func() Buf
 	// SelfPair are the transfer functions between []T and Buffer[T].
@@ -404,6 +407,7 @@ func mkOps[T signal.SignalTypes](name string, named bool, base int) *TypeOps {
 		SizeOf:    int(rt.Size()),
 		GrowCap:   func(l, c, n int) int { return cap(append(make([]T, l, c), make([]T, n)...)) },
 		Probes:    typeProbes[T](name),
+		IdleCycle: idleCycle[T],
 		Alloc:     func(a signal.Allocator) Buf { return &gbuf[T]{b: signal.Alloc[T](a), ti: ti} },
 		ZeroValue: func() Buf { return &gbuf[T]{b: new(signal.Buffer[T]), ti: ti} },
 		PoolAlloc: func(a signal.Allocator) Pool { p := signal.PoolAlloc[T](a); return &gpool[T]{p: &p, ti: ti} },
